@@ -800,6 +800,24 @@ def field_source(prog: Program) -> RuleResult:
                 res.fail(construct, "; ".join(problems), mod, call)
             else:
                 res.ok(construct, f"parse of `{short(src, 40)}` alone")
+    # parsing does not decorate the trees it builds
+    for cname in ("ReconciliationInput", "SuperReconciliationInput", "ReconciliationOutput", "SuperReconciliationOutput"):
+        cls = prog.cls(model, cname)
+        fn = method_def(cls, "_from_dict")
+        if fn is None:
+            continue
+        construct = f"{model}:{cname}._from_dict/tree-as-written"
+        deco = [
+            c for c in walk_no_nested(fn)
+            if isinstance(c, ast.Call) and isinstance(c.func, ast.Attribute) and c.func.attr in ("add_feature", "add_features", "del_feature", "swap_children", "ladderize", "sort_descendants")
+        ] + [
+            st for st in walk_no_nested(fn)
+            if isinstance(st, ast.Assign) and any(isinstance(t, ast.Attribute) and t.attr in ("name", "dist", "support") for t in st.targets)
+        ]
+        if deco:
+            res.fail(construct, f"`{short(deco[0], 70)}` alters the tree that was just parsed: writing it again does not reproduce the Newick string that was read", mod, deco[0])
+        else:
+            res.ok(construct, "the parsed trees are left as written")
     res.floor(4)
     return res
 
@@ -1061,8 +1079,9 @@ def label_pass(prog: Program) -> RuleResult:
 def label_guard(prog: Program) -> RuleResult:
     res = RuleResult(
         "LABEL-GUARD",
-        "label_internal only names unnamed nodes, tests the generated O#/S# name for membership in the tree "
-        "before assigning it, and walks in pre-order",
+        "label_internal only names unnamed nodes, follows the documented O# / S# scheme per tree, walks in pre-order, "
+        "and tests each generated name in a loop against the names of ALL nodes of the tree (`name in <tree>`, or a set "
+        "built from every node and kept up to date) before assigning it",
     )
     mod = prog.module(MODEL)
     cls = prog.cls(MODEL, "ReconciliationInput")
@@ -1071,14 +1090,34 @@ def label_guard(prog: Program) -> RuleResult:
         raise AnalysisError("label_internal not found")
     loops = [n for n in walk_no_nested(fn) if isinstance(n, ast.For)]
     expected_prefix = {"object_tree": "O", "tree": "S"}
+    seen_prefixes: Dict[str, str] = {}
     for loop in loops:
         it = loop.iter
         if not (isinstance(it, ast.Call) and isinstance(it.func, ast.Attribute) and it.func.attr == "traverse"):
             continue
         tree_expr = it.func.value
-        tree_name = dotted(tree_expr) or ""
         var = dotted(loop.target)
-        base = f"{MODEL}:ReconciliationInput.label_internal/{tree_name.split('.', 1)[-1]}"
+        # the tree(s) and prefix(es) this loop handles: directly, or through an outer loop over (tree, prefix) pairs
+        bindings: List[Tuple[str, Optional[str]]] = []  # (tree dotted name, literal prefix or None)
+        outer = next(
+            (o for o in loops if o is not loop and flow_contains(o, loop) and isinstance(o.iter, (ast.Tuple, ast.List)) and isinstance(o.target, ast.Tuple)),
+            None,
+        )
+        prefix_var = None
+        if isinstance(tree_expr, ast.Name) and outer is not None:
+            names = [dotted(e) for e in outer.target.elts]
+            if tree_expr.id in names:
+                ti = names.index(tree_expr.id)
+                for elt in outer.iter.elts:
+                    if not (isinstance(elt, ast.Tuple) and len(elt.elts) == len(names)):
+                        raise AnalysisError("label_internal: outer loop is not over (tree, prefix) pairs")
+                    pref = next((e.value for k, e in enumerate(elt.elts) if k != ti and isinstance(e, ast.Constant) and isinstance(e.value, str)), None)
+                    bindings.append((dotted(elt.elts[ti]) or "", pref))
+                prefix_var = next((nm for k, nm in enumerate(names) if k != ti), None)
+        if not bindings:
+            bindings = [(dotted(tree_expr) or "", None)]
+        label = "+".join(b[0].split(".", 1)[-1] for b in bindings)
+        base = f"{MODEL}:ReconciliationInput.label_internal/{label}"
         strat = kwarg(it, "strategy", 0)
         if isinstance(strat, ast.Constant) and strat.value == "preorder":
             res.ok(f"{base}/order", "preorder")
@@ -1102,11 +1141,7 @@ def label_guard(prog: Program) -> RuleResult:
             raise AnalysisError(f"{base}: expected one assignment to {var}.name")
         asg = assigns[0]
         gs = guards(fn, asg)
-        unnamed = False
-        for g, pol in gs:
-            if pol and _is_unnamed_test(g, var):
-                unnamed = True
-        if unnamed:
+        if any(pol and _is_unnamed_test(g, var) for g, pol in gs):
             res.ok(f"{base}/only-unnamed", "assignment guarded by the unnamed test")
         else:
             res.fail(
@@ -1117,18 +1152,26 @@ def label_guard(prog: Program) -> RuleResult:
             )
         # prefix
         value = asg.value
-        prefix = None
         counter = None
-        if isinstance(value, ast.JoinedStr) and len(value.values) == 2 and isinstance(value.values[0], ast.Constant):
-            prefix = value.values[0].value
-            fv = value.values[1]
+        prefixes: List[Optional[str]] = []
+        if isinstance(value, ast.JoinedStr) and len(value.values) == 2:
+            head, fv = value.values
             if isinstance(fv, ast.FormattedValue):
                 counter = dotted(fv.value)
-        want = expected_prefix.get(tree_name.rsplit(".", 1)[-1])
-        if want and prefix == want:
-            res.ok(f"{base}/prefix", f"names are {want}#")
+            if isinstance(head, ast.Constant):
+                prefixes = [head.value for _b in bindings]
+            elif isinstance(head, ast.FormattedValue) and dotted(head.value) == prefix_var:
+                prefixes = [b[1] for b in bindings]
+        bad_prefix = []
+        for (tname, _p), got in zip(bindings, prefixes or [None] * len(bindings)):
+            want = expected_prefix.get(tname.rsplit(".", 1)[-1])
+            seen_prefixes[tname.rsplit(".", 1)[-1]] = got or "?"
+            if not want or got != want:
+                bad_prefix.append(f"{tname}: `{got}`# instead of {want}#")
+        if not bad_prefix:
+            res.ok(f"{base}/prefix", "names follow the documented O# / S# scheme")
         else:
-            res.fail(f"{base}/prefix", f"generated name `{short(value)}` does not follow the documented {want}# scheme", mod, asg)
+            res.fail(f"{base}/prefix", f"generated name `{short(value)}` does not follow the documented scheme ({'; '.join(bad_prefix)})", mod, asg)
         # collision loop just before, same block
         block = None
         for node in ast.walk(loop):
@@ -1136,36 +1179,73 @@ def label_guard(prog: Program) -> RuleResult:
                 blk = getattr(node, fname, None)
                 if isinstance(blk, list) and asg in blk:
                     block = blk
+        verdict = "the generated name is assigned without first testing, in a loop, that no node of the tree already carries it"
         ok_collision = False
         if block is not None:
             pos = block.index(asg)
             for prev in block[:pos]:
-                if isinstance(prev, ast.While) and isinstance(prev.test, ast.Compare) and len(prev.test.ops) == 1:
-                    t = prev.test
-                    if (
-                        isinstance(t.ops[0], ast.In)
-                        and ast.dump(t.left) == ast.dump(value)
-                        and ast.dump(t.comparators[0]) == ast.dump(tree_expr)
-                    ):
-                        incr = [
-                            n
-                            for n in prev.body
-                            if isinstance(n, ast.AugAssign) and dotted(n.target) == counter and isinstance(n.op, ast.Add)
-                        ]
-                        if incr:
-                            ok_collision = True
+                if not (isinstance(prev, ast.While) and isinstance(prev.test, ast.Compare) and len(prev.test.ops) == 1):
+                    continue
+                t = prev.test
+                if not (isinstance(t.ops[0], ast.In) and ast.dump(t.left) == ast.dump(value)):
+                    continue
+                incr = [n for n in prev.body if isinstance(n, ast.AugAssign) and dotted(n.target) == counter and isinstance(n.op, ast.Add)]
+                if not incr:
+                    continue
+                cont = t.comparators[0]
+                if ast.dump(cont) == ast.dump(tree_expr):
+                    ok_collision = True  # ete3: `name in tree` looks at every node
+                    break
+                pool = dotted(cont)
+                pool_def = reaching(fn, pool, prev) if pool else None
+                if isinstance(pool_def, (ast.SetComp, ast.ListComp)) or (isinstance(pool_def, ast.Call) and dotted(pool_def.func) in ("set", "list") and pool_def.args and isinstance(pool_def.args[0], (ast.GeneratorExp, ast.SetComp, ast.ListComp))):
+                    comp = pool_def if isinstance(pool_def, (ast.SetComp, ast.ListComp)) else pool_def.args[0]
+                    gen = comp.generators[0]
+                    over_all = (
+                        isinstance(gen.iter, ast.Call) and isinstance(gen.iter.func, ast.Attribute) and gen.iter.func.attr == "traverse"
+                        and ast.dump(gen.iter.func.value) == ast.dump(tree_expr)
+                    ) or ast.dump(gen.iter) == ast.dump(tree_expr) and False
+                    names_elt = isinstance(comp.elt, ast.Attribute) and comp.elt.attr == "name" and dotted(comp.elt.value) == dotted(gen.target)
+                    kept = any(
+                        isinstance(c, ast.Call) and isinstance(c.func, ast.Attribute) and c.func.attr == "add" and dotted(c.func.value) == pool
+                        for st2 in block[pos:] for c in ast.walk(st2)
+                    )
+                    if not over_all or not names_elt:
+                        verdict = f"the set `{pool}` the candidate is tested against is not built from the names of every node of the tree (`{short(pool_def, 70)}`)"
+                    elif gen.ifs:
+                        verdict = f"the set `{pool}` the candidate is tested against leaves nodes out (`if {short(gen.ifs[0])}`): a generated name can collide with one of them"
+                    elif not kept:
+                        verdict = f"the set `{pool}` is not updated with the names that are assigned: two unnamed nodes can receive the same name"
+                    else:
+                        ok_collision = True
+                    break
+                leafy = [
+                    c for c in ast.walk(pool_def) if pool_def is not None and not isinstance(pool_def, Opaque)
+                    and isinstance(c, ast.Call) and isinstance(c.func, ast.Attribute)
+                    and c.func.attr in ("get_leaf_names", "iter_leaf_names", "get_leaves", "iter_leaves")
+                ] if pool_def is not None and not isinstance(pool_def, Opaque) else []
+                if leafy:
+                    verdict = f"the set `{pool}` the candidate is tested against holds the leaf names only (`{short(pool_def, 60)}`): a generated name can collide with an ancestor that is already named"
+                    break
+                raise AnalysisError(f"{base}: collision test against `{short(cont)}` is not understood")
+            else:
+                # an `if` instead of a `while`
+                for prev in block[:pos]:
+                    if isinstance(prev, ast.If) and isinstance(prev.test, ast.Compare) and ast.dump(prev.test.left) == ast.dump(value):
+                        verdict = "the candidate name is tested once (`if`), not in a loop: only one taken name is skipped"
         if ok_collision:
-            res.ok(f"{base}/collision", "candidate name tested with `in <tree>` in a loop before assignment")
+            res.ok(f"{base}/collision", "candidate name tested against every node's name in a loop before assignment")
         else:
-            res.fail(
-                f"{base}/collision",
-                f"the generated name `{short(value)}` is assigned without first testing that no node of the tree "
-                "already carries it",
-                mod,
-                asg,
-            )
-    res.floor(8)
+            res.fail(f"{base}/collision", verdict, mod, asg)
+    missing = [t for t in expected_prefix if t not in seen_prefixes]
+    if missing:
+        raise AnalysisError(f"LABEL-GUARD: no labelling loop found for {missing}")
+    res.floor(4)
     return res
+
+
+def flow_contains(outer: ast.AST, inner: ast.AST) -> bool:
+    return any(n is inner for n in ast.walk(outer))
 
 
 def _is_unnamed_test(test: ast.AST, var: str) -> bool:
